@@ -1049,6 +1049,30 @@ func (c *c04) setMany(h *c04Handle) {
 	}
 	h.model = got
 	c.verifyAll("setmany", h, nil, 0)
+	// the same slice of edits applied once more (a caller that keeps its edit list): every element exists now and is
+	// replaced by the value it already has
+	if t.Chance(1, 3, "setmany.again") {
+		w.NextOp(fmt.Sprintf("%s.SetMany(%s) again with the same []PathNode", h.name, strings.Join(desc, ",")))
+		if err := h.node.SetMany(pns, opts); err != nil {
+			w.Failf("setmany-failed", map[string]string{"after": "setmany-again"}, "SetMany with the same edit list failed the second time: %v (%s)", err, strings.Join(desc, ","))
+		}
+		raw2 := h.raw()
+		got2, nb2, err := decodeThrift(raw2, h.rootT, 0)
+		if err != nil || nb2 != len(raw2) {
+			w.Failf("not-wellformed", map[string]string{"after": "setmany-again"}, "after the second SetMany with the same edit list handle %s no longer decodes (%v, %d of %d bytes): %x", h.name, err, nb2, len(raw2), clipb(raw2, 300))
+		}
+		// every addressed element exists now: the edits are replacements (an element inserted by the first call may sit
+		// anywhere in a list, so the second application is not necessarily a no-op)
+		for i, s := range steps {
+			modelSet(h.model, []pstep{s}, vals[i])
+		}
+		if d := cmpRootUnordered(got2, h.model); d != "" {
+			w.Failf("wrong-value", map[string]string{"after": "setmany-again"}, "after the second SetMany(%s) with the same edit list: %s\nraw: %x", strings.Join(desc, ","), d, clipb(raw2, 400))
+		}
+		h.model = got2
+		w.Count("setmany_again")
+		c.verifyAll("setmany-again", h, nil, 0)
+	}
 }
 
 // cmpRootUnordered compares the root container as a multiset (struct fields / map entries) and
